@@ -73,28 +73,54 @@ def record_parallel(K, seed, n_traces, n_calls, procs=8):
         return [t for part in ex.map(_record_chunk, jobs) for t in part]
 
 
-def corrupt(traces, rejected=()):
-    """One observation of the first accepted trace altered: (corrupted copy, index of the event) or (None, None)."""
-    ok = [t for i, t in enumerate(traces) if i not in rejected and t['events']]
-    if not ok:
-        return None, None
-    bad = copy.deepcopy(ok[:1])
-    evs = bad[0]['events']
+def corrupt(t):
+    """One observation of trace t altered: ([corrupted copy], index of the event) or (None, None)."""
+    bad = copy.deepcopy(t)
+    evs = bad['events']
     # a lookup that found something now claims another object; failing that, a handle claims to be cached
     k = next((i for i, e in enumerate(evs) if i >= len(evs) // 2 and e['den']), None)
     if k is not None:
         evs[k]['den'][-1][3] += 'x'
-        return bad, k
+        return [bad], k
     k = next((i for i, e in enumerate(evs) if len(e['cached']) < len(e['nloads'])), None)
     if k is not None:
         evs[k]['cached'] = sorted(set(evs[k]['cached']) | {next(h for h, _n in evs[k]['nloads'] if h not in evs[k]['cached'])})
-        return bad, k
+        return [bad], k
     return None, None
+
+
+def validate_with_self_test(res, gen, name, traces, consts, ov, invariants, shards):
+    """tracecheck.validate on the batch plus a corrupted copy of its first trace (same TLC runs: no extra JVM), which
+    must be rejected exactly at the corrupted event.  Returns (rejected, event the corrupted copy was rejected at)."""
+    from .. import tracecheck
+    bad, k = corrupt(traces[0]) if traces else (None, None)
+    rej_all = tracecheck.validate(res, gen, name, traces + (bad or []), consts, overrides=ov, invariants=invariants, shards=shards)
+    rej = [(i, at) for i, at in rej_all if i != len(traces)]
+    if bad is None:
+        return rej, None
+    run = res.tlc_runs[-1]
+    run.update(traces=len(traces), events=run['events'] - len(bad[0]['events']), rejected=len(rej),
+               plus='one corrupted copy of trace 0 (self-test), rejected as required')
+    own = [at for i, at in rej_all if i == len(traces)]
+    if not any(i == 0 for i, _at in rej) and not any(isinstance(at, str) for _i, at in rej_all):
+        if own != [k]:
+            raise common.MachineryError('trace validation accepted a corrupted resource-tree trace: rejected at %r, corrupted '
+                                        'event %d' % (own, k))
+        return rej, k
+    # trace 0 itself is not explained (or a shard stopped at an invariant): the self-test takes the first accepted trace
+    ok = [t for i, t in enumerate(traces) if i not in {j for j, _at in rej} and t['events']]
+    bad, k = corrupt(ok[0]) if ok else (None, None)
+    if bad is None:
+        return rej, None
+    r2 = tracecheck.validate(res, gen, name + '-corrupted', bad, consts, overrides=ov, shards=1)
+    if not (len(r2) == 1 and r2[0][1] == k):
+        raise common.MachineryError('trace validation accepted a corrupted resource-tree trace: %r (corrupted event %d)' % (r2, k))
+    return rej, k
 
 
 def trace_validate(res, name, n_traces, n_calls, K=None, shards=8, invariants=None):
     """Random histories over the big universe executed on the real classes, recorded, validated by TLC."""
-    from .. import tracecheck, record_resources as rr, replay as _rp
+    from .. import record_resources as rr, replay as _rp
     if _rp.REPLAY is not None:
         return
     common.import_desper()
@@ -102,25 +128,19 @@ def trace_validate(res, name, n_traces, n_calls, K=None, shards=8, invariants=No
     traces = record_parallel(K, res.seed, n_traces, n_calls)
     gen = 'ResourcesTrace_%s' % name
     consts, ov = write_module(res, gen, K)
-    rej = tracecheck.validate(res, gen, name, traces, consts, overrides=ov, invariants=INVARIANTS if invariants is None else invariants, shards=shards)
+    rej, self_test = validate_with_self_test(res, gen, name, traces, consts, ov,
+                                             INVARIANTS if invariants is None else invariants, shards)
     res.traces += len(traces) - len(rej)
     cov = res.cov.setdefault('trace_validation', {})
     cov[name] = {'traces': len(traces), 'events': sum(len(t['events']) for t in traces),
                  'accepted': len(traces) - len(rej), 'rejected': len(rej), 'per_action': op_counts(traces),
                  'universe': {'maps': len(K['MapOrder']), 'handles': len(K['Hd']), 'names': len(K['Names']),
                               'max_key_depth': K['MaxDepth'], 'max_layers': K['MaxLayers']},
-                 'observed_shapes': shapes(traces)}
+                 'observed_shapes': shapes(traces), 'corrupted_trace_rejected_at_event': self_test}
     _report(res, name, traces, rej)
     if traces and traces[0]['events']:
         res.sample({'recorded_trace_first_events': [[e['op'], e['a1'], e['a2'], e['a3'], e['rk'], e['ri']]
                                                     for e in traces[0]['events'][:10]]})
-    bad, k = corrupt(traces, {i for i, _at in rej})
-    if bad is not None:
-        r2 = tracecheck.validate(res, gen, name + '-corrupted', bad, consts, overrides=ov, shards=1)
-        cov[name]['corrupted_trace_rejected_at_event'] = r2[0][1] if r2 else None
-        if not (len(r2) == 1 and r2[0][1] == k):
-            raise common.MachineryError('trace validation accepted a corrupted resource-tree trace: %r (corrupted event %d)'
-                                        % (r2, k))
 
 
 def shapes(traces):
